@@ -28,7 +28,7 @@ def harness_fault():
 @st.composite
 def cases(draw, tier="quick"):
     kind = draw(st.sampled_from(["readers", "readers", "readers", "cz", "xw", "failcopy"]))
-    case = dict(kind=kind, pool=draw(st.integers(0, 8)), dot=draw(st.booleans()))
+    case = dict(kind=kind, pool=draw(st.sampled_from(list(range(9)) + [6, 7])), dot=draw(st.booleans()))
     opst = st.tuples(st.sampled_from(["inode", "lsdir", "lspart", "resolve", "read", "block", "frag", "stream", "xattr", "xdesc", "id", "mseek", "root", "cross"]),
                      st.integers(0, 10 ** 6), st.integers(0, 10 ** 6), st.integers(0, 10 ** 6), st.integers(1, 9))
     if kind == "readers":
